@@ -95,6 +95,25 @@ theorem Run.listFuel {σ α : Type} {next : σ → Option (Option (α × σ))} {
     dsimp only
     rw [ih n (by simp only [List.length_cons] at hf; omega)]
 
+/-- Whatever the fuel, the fuelled drain returns the first `fuel` items of the complete run. -/
+theorem Run.listFuel_take {σ α : Type} {next : σ → Option (Option (α × σ))} {s : σ} {l : List α}
+    (h : Run next s l) : ∀ fuel, C01Thick.listFuel next fuel s = some (l.take fuel) := by
+  induction h with
+  | done h1 =>
+    intro fuel
+    cases fuel with
+    | zero => rfl
+    | succ n => rw [C01Thick.listFuel, h1]; rfl
+  | step h1 _ ih =>
+    intro fuel
+    cases fuel with
+    | zero => rfl
+    | succ n =>
+      rw [C01Thick.listFuel, h1]
+      dsimp only
+      rw [ih n]
+      rfl
+
 /-- A fuelled drain never returns more items than it has fuel. -/
 theorem listFuel_length {σ α : Type} {next : σ → Option (Option (α × σ))} :
     ∀ (fuel : Nat) (s : σ) (l : List α), listFuel next fuel s = some l → l.length ≤ fuel := by
